@@ -1,10 +1,15 @@
-import CspuzModel.Model.Sexp
-open Cspuz
+import Driver.C13
+open Cspuz Cspuz.Drv
+
+def handlers : List (Sexp → Option Sexp) := [handleC13]
 
 def handle (s : Sexp) : Sexp :=
   match s with
   | .list (.atom "echo" :: rest) => .list rest
-  | _ => .atom "bad-op"
+  | _ =>
+    match handlers.findSome? (fun h => h s) with
+    | some r => r
+    | none => .atom "bad-op"
 
 partial def loop (h : IO.FS.Stream) (out : IO.FS.Stream) : IO Unit := do
   let line ← h.getLine
